@@ -24,7 +24,7 @@ ASSUMPTIONS = [
     "results are compared structurally: strings, booleans, indices, node lists as pre-order positions, error lists as (code, message, "
     "node position)",
 ]
-REQUIRED = ["imported_trees_with_default_namespace", "snapshots_compared", "second_pass_results_compared", "trees_needing_xml_escaping", "op:export.to_xml", "op:metapype_io.to_xml",
+REQUIRED = ["trees_deeper_than_recursion_limit", "imported_trees_with_default_namespace", "snapshots_compared", "second_pass_results_compared", "trees_needing_xml_escaping", "op:export.to_xml", "op:metapype_io.to_xml",
             "op:validate.tree", "op:evaluate.tree", "op:Node.is_equal", "op:find_all_descendants", "op:metapype_io.to_json"]
 EXHAUSTIVE = {"quick": False, "thorough": False}
 
@@ -52,7 +52,10 @@ def operations(root, rng):
 
     picks = [root] + (rng.sample(order, min(3, len(order))) if len(order) > 1 else [])
     names = sorted({n.name for n in order})[:4] + ["verifNoSuchName"]
-    other = root.copy()
+    try:
+        other = root.copy()
+    except RecursionError:
+        other = Node(root.name)
     ops = []
 
     def add(name, fn):
@@ -155,11 +158,24 @@ def run_op(fn):
         return ("raised", type(e).__name__)
 
 
-def judge(ctx, root, origin):
+def deep_chain(depth):
+    deep = Node("section")
+    cur = deep
+    for _ in range(depth):
+        nxt = Node("section")
+        cur.add_child(nxt)
+        cur = nxt
+    cur.add_child(Node("para", content="bottom"))
+    return deep
+
+
+def judge(ctx, root, origin, deep=None):
     plain = None
 
     def wit(opname):
         nonlocal plain
+        if deep is not None:
+            return {"deep_chain": deep, "origin": origin, "operation": opname}
         if plain is None:
             plain = snapshot.to_plain(root)
         return {"tree": plain, "origin": origin, "operation": opname}
@@ -257,12 +273,25 @@ def run(ctx, params):
     if c is not None:
         ctx.case(judge, ctx, c, "tests/data/eml.xml")
         emlkit.discard(c)
+    # a chain deeper than the interpreter's recursion limit: the recursive entry points die with RecursionError half-way - and must
+    # still leave the tree as it was (and answer the same way the second time)
+    import sys
+    depth = sys.getrecursionlimit() + 200
+    deep = deep_chain(depth)
+    ctx.count("trees_deeper_than_recursion_limit")
+    ctx.case(judge, ctx, deep, "chain deeper than the recursion limit", depth, seconds=120.0)
+    emlkit.discard(deep)
 
 
 def replay(ctx, witness):
     if "repo_test" in witness:
         from vlib import repotests
         repotests.run(ctx, PROPERTY)
+        ctx.distinct(1)
+        ctx.distinct(2)
+        return
+    if "deep_chain" in witness:
+        judge(ctx, deep_chain(witness["deep_chain"]), witness.get("origin", "replay"), witness["deep_chain"])
         ctx.distinct(1)
         ctx.distinct(2)
         return
